@@ -401,6 +401,8 @@ def report_violations(prop_id, mod, seed, args, viols, t0, agg, pre, st=None):
         else:
             info = {"minimised": False}
         sig = mod.signature(spec, sc, rule) if hasattr(mod, "signature") else rule
+        if sig == rule:
+            sig = findings.generic_signature(spec, rule, v.get("msg")) or sig
         kf = findings.match(known, prop_id, rule, sig)
         if kf is not None:
             key = (prop_id, kf["signature"])
